@@ -119,7 +119,9 @@ def run(ctx):
                 "message objects by identity and the expected set is exactly the messages sent through interfaces attached to this bus; "
                 "70 % of the buses are decorated (gateway nodes with other interfaces carrying messages on another bus / no bus, static "
                 "CAN-IDs below and above 0x7FF set before or after attaching, delay / start-delay times around the cycle time, wide ids "
-                "with a mask-less builder, priority, send type, description, signals, receivers, attribute assignments). Each bus is built through the public API (0..5 interfaces, 0..40 "
+                "with a mask-less builder, priority, send type, description, signals, receivers, attribute assignments, node names from a "
+                "pool with Vector__XXX / empty / DBC keywords, messages also added to a detached interface of the same node); about "
+                "10 % of the buses come out of ImportDBCFile of a generated DBC text with sender-less messages. Each bus is built through the public API (0..5 interfaces, 0..40 "
                 "messages, sizes 0..8, cycle 0 (default) or 1..3600000, baud in {0,125k,500k,1M,1,random,negative}, default cycle in "
                 "{-1,0,1,100,random,min int,...}); families: mixed, slow messages whose rates all differ by < 1 bit/s, neighbouring "
                 "cycle times, default-cycle ties, fast messages; every accepted bus is re-run with one message enlarged and with one "
